@@ -8,6 +8,7 @@ for d in seeded/*/; do
   name=$(basename "$d")
   if [ $# -gt 0 ]; then ok=0; for p in "$@"; do case "$name" in $p*) ok=1;; esac; done; [ $ok = 1 ] || continue; fi
   ids=$(/venv/bin/python -c "import json,re,sys;m=json.load(open('$d/meta.json'));print(' '.join(sorted(set(re.findall(r'C\d\d', m.get('detected_by',''))))))")
+  if grep -q neutralised_by "$d/meta.json"; then echo "$name: neutralised by a later fix (see meta.json), skipped"; continue; fi
   if echo "$name" | grep -q "pyx"; then echo "$name: .pyx demo (see DESIGN 10.5), skipped"; continue; fi
   for c in $ids; do
     out=$(./tools/try_seed.sh "$d/patch.diff" $c 2>&1)
